@@ -233,7 +233,11 @@ def liveness_cases(rng, n):
              ("spheroid", 0.3, 0.6, (1.59, 0), (0, 0.5, 7.0)), ("sphere", 12.0, 12.0, (1.59, 0), (0, 0, 0)),
              ("spheroid", 0.2, 2.0, (1.59, 0), (0, 0, 0)), ("cylinder", 0.3, 3.0, (1.59, 0), (0, 0, 0)),
              ("spheroid", 1.5, 3.0, (2.8, 0), (0, 0, 0)), ("sphere", 5.0, 5.0, (1.59, 0), (0, 0, 0)),
-             ("spheroid", 0.3, 0.6, (1.59, 0), (0, float("nan"), 0.2)), ("spheroid", 0.3, 0.6, (1.59, 0), (0, 1e9, -1e9))]
+             ("spheroid", 0.3, 0.6, (1.59, 0), (0, float("nan"), 0.2)), ("spheroid", 0.3, 0.6, (1.59, 0), (0, 1e9, -1e9)),
+             # sizes far beyond anything physical: the size parameter no longer fits an integer
+             ("sphere", 1e9, 1e9, (1.59, 0), (0, 0, 0)), ("sphere", 1e15, 1e15, (1.59, 0), (0, 0, 0)), ("sphere", float("inf"), float("inf"), (1.59, 0), (0, 0, 0)),
+             ("spheroid", 1e10, 2e10, (1.59, 0), (0, 0.3, 0.2)), ("cylinder", 1e12, 1e12, (1.59, 0.01), (0, 0.3, 0.2)),
+             ("sphere", 1e-12, 1e-12, (1.59, 0), (0, 0, 0)), ("spheroid", 1e-9, 2e-9, (1.59, 0), (0, 0.3, 0.2))]
     for kind, p1, p2, nn, rot in fixed:
         cases.append(dict(kind=kind, p1=p1, p2=p2, n=list(nn), rot=list(rot), mode="field", x=[0.5, -1.0], y=[0.2, 2.0], z=20.0))
     cases.append(dict(kind="spheroid", p1=0.3, p2=0.6, n=[1.59, 0], rot=[0, 0.4, 0.2], mode="smat", theta=[-0.1, 0.5, 3.5], phi=[0.3, -0.2, 7.0]))
@@ -242,6 +246,9 @@ def liveness_cases(rng, n):
         if i % 4 == 0:
             nn = complex(float(rng.uniform(1.05, 3.0)), float(rng.choice([0.0, rng.uniform(0, 1.0)])))
         rot = [float(rng.uniform(-4 * math.pi, 4 * math.pi)) for _ in range(3)]
+        if i % 7 == 3:
+            f = float(10.0 ** rng.uniform(3, 18))
+            p1, p2 = p1 * f, p2 * f
         if i % 5 == 0:
             cases.append(dict(kind=kind, p1=p1, p2=p2, n=[nn.real, nn.imag], rot=rot, mode="smat",
                               theta=[float(v) for v in rng.uniform(-0.5, 3.6, size=3)], phi=[float(v) for v in rng.uniform(-1, 7, size=3)]))
